@@ -258,6 +258,9 @@ pub struct Sched {
     /// while awaiting 100 the caller goes by what `try_read_100` returns - "Ok(0): not enough data yet,
     /// continue waiting", as its documentation says - and never asks `can_keep_await_100()`
     pub await_by_return: bool,
+    /// on entering the receive state the caller switches the truncated-redirect opt-in on and straight off
+    /// again, before any input: no trace may remain
+    pub toggle_partial: bool,
     /// explicit arrival points (offsets into the driver's server slice); empty = use `arrive`
     pub cuts: Vec<usize>,
 }
@@ -274,6 +277,7 @@ impl Sched {
             queries: false,
             direct: false,
             await_by_return: false,
+            toggle_partial: false,
             stop_on_boundary: false,
             cuts: vec![],
         }
@@ -300,6 +304,7 @@ impl Sched {
             stop_on_boundary: rng.chance(1, 3),
             direct: rng.chance(1, 4),
             await_by_return: rng.chance(1, 4),
+            toggle_partial: rng.chance(1, 4),
             rng: rng.fork(),
             cuts: vec![],
         }
@@ -524,6 +529,13 @@ impl<'a> Driver<'a> {
         self.path.push(f.name());
         self.flow = f;
         self.stall = 0;
+        if self.sched.toggle_partial {
+            if let AnyFlow::RecvResponse(r) = &mut self.flow {
+                r.allow_partial_redirect(true);
+                r.allow_partial_redirect(false);
+                rec.ev(|| "RecvResponse.allow_partial_redirect(true) then (false), before any input".to_string());
+            }
+        }
     }
 
     fn arrive(&mut self, hint: usize) {
@@ -1174,6 +1186,22 @@ pub fn body_sender_ex(cl: Option<u64>, explicit_te: bool, use_call: bool, varian
     if variant & 2048 != 0 && !use_call {
         return redirected_body_sender(cl);
     }
+    if variant & 4096 != 0 && !use_call {
+        // bit 12: a GET whose content-length is added through header() BEFORE the escape hatch is switched on
+        if let Some(n) = cl {
+            let req = Request::builder().method("GET").uri("http://h.test/up").body(()).unwrap();
+            let mut p = Flow::new(req).map_err(|e| format!("{:?}", e))?;
+            p.header("content-length", n.to_string()).map_err(|e| format!("{:?}", e))?;
+            p.send_body_despite_method();
+            let mut f = p.proceed();
+            let mut buf = [0u8; 256];
+            f.write(&mut buf).map_err(|e| format!("{:?}", e))?;
+            return match f.proceed().map_err(|e| format!("{:?}", e))? {
+                Some(SendRequestResult::SendBody(s)) => Ok(BodySender::Flow(s)),
+                _ => Err("expected SendBody".into()),
+            };
+        }
+    }
     let despite = variant & 2 != 0 && !use_call;
     // bits 5..6: which body-less method the escape hatch is used on
     let despite_method = ["GET", "TRACE", "DELETE", "OPTIONS"][(variant >> 5) as usize & 3];
@@ -1246,7 +1274,12 @@ pub fn body_sender_ex(cl: Option<u64>, explicit_te: bool, use_call: bool, varian
 
 /// See bit 11 of `body_sender_ex`.
 fn redirected_body_sender(cl: Option<u64>) -> Result<BodySender, String> {
-    let first = ReqCfg::new("POST", "http://h.test/first").h("transfer-encoding", b"chunked").h("cookie", b"a=b");
+    // the first request is framed by chunked - or, for small even lengths, by the very content-length value
+    // the caller will give the redirected request (it is a new header there, not a repetition)
+    let first = match cl {
+        Some(n) if n % 2 == 0 && n <= 4096 => ReqCfg::new("POST", "http://h.test/first").h("content-length", n.to_string().as_bytes()).h("cookie", b"a=b"),
+        _ => ReqCfg::new("POST", "http://h.test/first").h("transfer-encoding", b"chunked").h("cookie", b"a=b"),
+    };
     let (end, ..) = fast_to_recv(&first).and_then(|f| fast_response(f, b"HTTP/1.1 303 See Other\r\nLocation: /up\r\nContent-Length: 0\r\n\r\n"))?;
     let mut r = match end {
         End::Redirect(r) => r,
